@@ -35,6 +35,7 @@ def dispatch (line : String) : Verdict :=
   | "C19" :: args => c19 args r
   | "C06" :: "hand" :: args => handVerdict "C06" ("hand" :: args) r
   | "C06" :: args => c06 args r
+  | "C07" :: "st" :: args => c06 ("st" :: args) r
   | "C07" :: args => c07 args r
   | "C12" :: args => c12 args r
   | "C15" :: args => c15 args r
